@@ -15,7 +15,7 @@
    Both assumptions are exercised by the correspondence (the harness decodes the real payload
    bytes and the comparison is made on the decoded value).
 
-   The record [quirks] switches on the five defects this model was first written against and that
+   The record [quirks] switches on the six defects this model was first written against and that
    were repaired in /repo; [fixed] (all off) is the behaviour of the code, [legacy] the behaviour
    before the repairs (kept for the witnesses in proofs/SpansProofs.v and for diagnosing a
    regression in the check). *)
@@ -29,12 +29,13 @@ Record quirks := {
   q_remote_inverted : bool;  (* remoteEndpoint: if z.serviceName != "" { z.serviceName = remote } *)
   q_nd_stateful : bool;      (* NDJSON framing: no per-line reset, payload never set *)
   q_peer_first : bool;       (* parseOTLP: peer.service before service.name, service.name always rewritten *)
-  q_parent_payload : bool    (* parseZipkinJSON: parent only from a 16-digit "parentId" of the payload, parent_id column ignored *)
+  q_parent_payload : bool;   (* parseZipkinJSON: parent only from a 16-digit "parentId" of the payload, parent_id column ignored *)
+  q_time_wrap : bool         (* zipkin decodeSpan: microseconds * 1000 wrapped around int64 silently *)
 }.
 Definition fixed : quirks :=
-  {| q_list_drop := false; q_remote_inverted := false; q_nd_stateful := false; q_peer_first := false; q_parent_payload := false |}.
+  {| q_list_drop := false; q_remote_inverted := false; q_nd_stateful := false; q_peer_first := false; q_parent_payload := false; q_time_wrap := false |}.
 Definition legacy : quirks :=
-  {| q_list_drop := true; q_remote_inverted := true; q_nd_stateful := true; q_peer_first := true; q_parent_payload := true |}.
+  {| q_list_drop := true; q_remote_inverted := true; q_nd_stateful := true; q_peer_first := true; q_parent_payload := true; q_time_wrap := true |}.
 
 (* ------------------------------------------------------------------ numbers *)
 Definition two63 : Z := 9223372036854775808.
@@ -290,6 +291,10 @@ Definition string_or_int64 (v : jv) : option Z :=
   | _ => None
   end.
 
+(* usToNs: Zipkin microseconds -> int64 nanoseconds; a product outside int64 is refused (400) *)
+Definition ns_of_us (x : Z) : option Z := if in_int64 (x * 1000) then Some (x * 1000) else None.
+Definition us_to_ns (q : quirks) (x : Z) : option Z := if q_time_wrap q then Some (wrap64 (x * 1000)) else ns_of_us x.
+
 Record zst := {
   z_tid : string; z_sid : string; z_ts : Z; z_dur : Z; z_parent : string; z_name : string;
   z_svc : string; z_payload : payload; z_kv : amap (* key/val arrays: appended, never de-duplicated *) }.
@@ -341,8 +346,8 @@ Definition z_field (q : quirks) (st : zst) (k : zkey) (v : jv) : option zst :=
   | KTrace => match v with JStr s => option_map (set_tid st) (decode_hex_str s 32) | _ => None end
   | KId => match v with JStr s => option_map (set_sid st) (decode_hex_str s 16) | _ => None end
   | KParent => match v with JStr s => option_map (set_parent st) (decode_hex_str s 16) | _ => None end
-  | KTimestamp => option_map (fun x => set_ts st (wrap64 (x * 1000))) (string_or_int64 v)
-  | KDuration => option_map (fun x => set_dur st (wrap64 (x * 1000))) (string_or_int64 v)
+  | KTimestamp => match string_or_int64 v with Some x => option_map (set_ts st) (us_to_ns q x) | None => None end
+  | KDuration => match string_or_int64 v with Some x => option_map (set_dur st) (us_to_ns q x) | None => None end
   | KName => match v with JStr s => Some (set_name st s (z_kv st ++ [(k_name, s)])%list) | _ => None end
   | KLocal =>
       match parse_endpoint "local_endpoint_" v (z_kv st) with
@@ -562,7 +567,7 @@ Definition opt_field {A} (o : option jv) (absent : A) (f : jv -> option A) : opt
   match o with None => Some absent | Some v => f v end.
 Definition hex_field (leng : nat) (v : jv) : option string :=
   match v with JStr s => decode_hex_str s leng | _ => None end.
-Definition time_field (v : jv) : option Z := option_map (fun x => wrap64 (x * 1000)) (string_or_int64 v).
+Definition time_field (v : jv) : option Z := match string_or_int64 v with Some x => ns_of_us x | None => None end.
 Definition ep_ok (name : string) (fs : list (string * jv)) : bool :=
   match jget name fs with
   | None => true
@@ -763,12 +768,17 @@ Definition read_ok (p : pushed) (o : option rspan) : bool :=
   end.
 Definition reads_ok (ps : list pushed) (os : list (option rspan)) : bool := all2 read_ok ps os.
 
+(* a Zipkin request without repeated member names that denotes no spans (a member that is not a value of its field:
+   a number outside int64 microseconds or int64 nanoseconds, a fraction or exponent, a malformed id ...) must be refused *)
+Definition must_reject (i : input) : bool :=
+  match i with InZipkin _ es => forallb z_wellformed es | InOtlp _ => false end.
+
 (* accepted requests of the property's domain (every id 16/8 bytes wide, objects without repeated
-   member names) must satisfy all three clauses. *)
+   member names) must satisfy all three clauses; a request that denotes nothing must not be accepted. *)
 Definition spec_ok (c : case) : bool :=
   if c_err c then true
   else match pushed_of (c_in c) with
-       | None => true
+       | None => negb (must_reject (c_in c))
        | Some ps =>
            if forallb widths_ok ps then
              rows_ok (c_in c) 0%N ps (c_rows c) && tags_ok ps (c_tags c)
@@ -785,11 +795,11 @@ Definition spec_violations (cs : list case) : list Z := map c_id (filter spec_vi
 (* diagnosis of a mismatch: which single legacy defect, switched back on, explains the observation *)
 Definition with_quirk (n : nat) : quirks :=
   {| q_list_drop := Nat.eqb n 0; q_remote_inverted := Nat.eqb n 1; q_nd_stateful := Nat.eqb n 2; q_peer_first := Nat.eqb n 3;
-     q_parent_payload := Nat.eqb n 4 |}.
+     q_parent_payload := Nat.eqb n 4; q_time_wrap := Nat.eqb n 5 |}.
 Definition explains (n : nat) (c : case) : bool := write_matches (with_quirk n) c && read_matches (with_quirk n) c.
 Definition regressions (cs : list case) : list (Z * Z) :=
   flat_map (fun c => if model_mismatch c
-                     then map (fun n => (c_id c, Z.of_nat n)) (filter (fun n => explains n c) [0; 1; 2; 3; 4]%nat)
+                     then map (fun n => (c_id c, Z.of_nat n)) (filter (fun n => explains n c) [0; 1; 2; 3; 4; 5]%nat)
                      else []) cs.
 
 (* run-length form used by generated case files: consecutive tag rows with the same ids and times *)
